@@ -421,4 +421,15 @@ example :
     getDb (run Switches.fixed {} {} evs).store 3 = [] ∧
     ((run Switches.fixed {} {} evs).conns 1).blocked = false := by decide
 
+/-- the wake-up is carried out at the end of the pushing command itself (also inside EXEC): connection 2 waits on `k`
+    (`BRPOP k 0`), connection 1 runs `MULTI; LPUSH k a; RPUSH k b; EXEC` — the waiter gets `a` before the second push. -/
+example :
+    let evs : List Dbs.Ev :=
+      [⟨1, 2, .plain [[66, 82, 80, 79, 80], [107], [48]] none⟩, ⟨2, 1, .plain [wMULTI] none⟩,
+       ⟨3, 1, .plain [[76, 80, 85, 83, 72], [107], [97]] none⟩, ⟨4, 1, .plain [[82, 80, 85, 83, 72], [107], [98]] none⟩,
+       ⟨5, 1, .plain [wEXEC] none⟩]
+    (run Switches.fixed {} {} evs).log.map (fun a => (a.path, a.db)) = [(.direct, 0), (.exec, 0), (.served, 0), (.exec, 0)] ∧
+    getDb (run Switches.fixed {} {} evs).store 0 = [([107], ⟨.list [[98]], none⟩)] ∧
+    ((run Switches.fixed {} {} evs).conns 2).blocked = false ∧ (run Switches.fixed {} {} evs).outbox = [] := by decide
+
 end Ferrous.C18
